@@ -63,7 +63,7 @@ class G:
         # further accessor spellings reaching the same sub-ranges (run-time indexed overloads with literal arguments);
         # not used for the disjoint/cover computation
         self.extra_parts = []
-        if "SE_K_3" in ctype:
+        if ctype.startswith("smooth::SE_K_3"):
             K = int(ctype.rstrip(">").split(",")[-1])
             self.extra_parts = [Part("r3(%d)" % k, 3 * k, 3, "vec", None) for k in range(K)]
 
